@@ -12,6 +12,7 @@ import (
 
 	"seehuhn.de/go/sfnt"
 	"seehuhn.de/go/sfnt/cff"
+	"seehuhn.de/go/sfnt/cmap"
 	"seehuhn.de/go/sfnt/glyf"
 	"seehuhn.de/go/sfnt/glyph"
 	"seehuhn.de/go/sfnt/opentype/coverage"
@@ -558,6 +559,9 @@ func run(c *wk.Case) {
 			}
 		}
 		_ = big
+		if t.Chance(1, 8) {
+			twinCMap(c, f)
+		}
 		c.Sample = map[string]any{"source": "constructed font", "outlines": kind.String(), "glyphs": f.NumGlyphs(),
 			"gsub": f.Gsub != nil, "gpos": f.Gpos != nil, "gdef": f.Gdef != nil, "timestamps": hasTimestamp(f)}
 		c.Logf("constructed %s font, %d glyphs, gsub=%v gpos=%v gdef=%v timestamps=%v", kind, f.NumGlyphs(), f.Gsub != nil, f.Gpos != nil, f.Gdef != nil, hasTimestamp(f))
@@ -620,4 +624,54 @@ func setup(string, uint64) {
 
 func main() {
 	wk.Main(&wk.Property{ID: "C01", Run: run, Setup: setup})
+}
+
+// twinCMap gives the font two character maps that differ: the Windows subtable
+// is the Unicode one with the glyphs of two characters exchanged (as fonts with
+// a symbol or legacy encoding besides the Unicode one have it).  The two
+// encodings have the same length and mostly the same words in another order.
+func twinCMap(c *wk.Case, f *sfnt.Font) {
+	t := c.T
+	best, _ := f.CMapTable.GetBest()
+	if best == nil {
+		return
+	}
+	lo, hi := best.CodeRange()
+	if hi > 0xFFFF {
+		return
+	}
+	m1, m2 := cmap.Format4{}, cmap.Format4{}
+	var codes []uint16
+	for r := lo; r <= hi; r++ {
+		if g := best.Lookup(r); g != 0 {
+			m1[uint16(r)], m2[uint16(r)] = g, g
+			codes = append(codes, uint16(r))
+		}
+	}
+	if len(codes) < 2 {
+		return
+	}
+	// prefer characters that form segments of their own
+	alone := func(i int) bool {
+		return (i == 0 || codes[i-1]+1 < codes[i]) && (i+1 == len(codes) || codes[i]+1 < codes[i+1])
+	}
+	pickCode := func() int {
+		i := t.Draw(len(codes))
+		for k := 0; k < len(codes); k++ {
+			if j := (i + k) % len(codes); alone(j) {
+				return j
+			}
+		}
+		return i
+	}
+	i, j := pickCode(), pickCode()
+	if i == j || m1[codes[i]] == m1[codes[j]] {
+		return
+	}
+	m2[codes[i]], m2[codes[j]] = m1[codes[j]], m1[codes[i]]
+	f.CMapTable = cmap.Table{
+		{PlatformID: 0, EncodingID: 3}: m1.Encode(0),
+		{PlatformID: 3, EncodingID: 1}: m2.Encode(0),
+	}
+	c.Count("fonts_with_two_different_cmap_subtables", 1)
 }
